@@ -49,7 +49,7 @@ NG = ("uint8", "uint16", "uint32", "uint64", "float32")
 
 def gen_cases(tier, seed):
     rnd = random.Random(f"C16:{seed}")
-    n = 8000 if tier == "quick" else 80000
+    n = 8000 if tier == "quick" else 300000
     cases = []
     for k in range(n):
         cases.append({
